@@ -267,3 +267,124 @@ Example C16_read_data_cut_nonvacuous :
   (* the message complete within the cut is delivered *)
   run 44%nat TEOF = (RDData 2 [7; 8; 9; 10], pongs).
 Proof. vm_compute. repeat split; reflexivity. Qed.
+
+(* ======================================================================================
+   Handshakes over a cut transport ("... and handshakes return an error").
+   The request / response reaches Upgrader.Upgrade / Dialer.Upgrade as a bufio.Reader of any
+   size B >= 1 over any chunking of the bytes that arrived, and then the transport reports
+   io.EOF or fails ([HsBufio.reader], tail TEof / TFail); configurations are arbitrary.
+   [head_complete bs] (model/HsCut.v): in terms of the models' line reader, bs has a first
+   line terminated by LF and, behind it, LF-terminated lines one of which readLine returns
+   empty ("\n" or "\r\n"); [head_length bs] = the number of bytes up to and including that
+   line.  The models have no failing destination: the write side of a handshake is decided
+   on observations only (kind HSW). *)
+Require Import HsBase64 HsSha1 HsBufio HsHttpHead HsHttp HsUpgrader HsUpgraderProofs
+        HsDialer HsDialerProofs HsCut HsCutProofs.
+
+(* plain reading of "the head is complete": somewhere an LF is directly followed by LF or CR LF *)
+Theorem C16_head_complete_plain : forall bs, head_complete bs = has_lf_blank bs.
+Proof. exact head_complete_plain. Qed.
+Print Assumptions C16_head_complete_plain.
+
+(* every cut strictly inside the head leaves an incomplete head *)
+Theorem C16_cut_inside_head_incomplete : forall bs h k,
+  head_length bs = Some h -> (k < h)%nat -> head_complete (firstn k bs) = false.
+Proof. exact cut_inside_head_incomplete. Qed.
+Print Assumptions C16_cut_inside_head_incomplete.
+
+(* server: the stream ends or fails before the head is complete => an error is returned (one of
+   the Go code's, never the model's out-of-fuel value) and no 101 response is written (the
+   proviso of C09_never_101_on_failure: no user callback itself asks for status 101) *)
+Theorem C16_upgrader_cut : forall stext cfg B r, 1 <= B ->
+  head_complete (HsBufio.flat r) = false ->
+  (exists e, u_err (upgrader stext cfg B r) = Some e /\ e <> EFuel)
+  /\ ((forall rj, from_callback cfg rj -> status_of rj <> 101) ->
+      is_101 (u_out (upgrader stext cfg B r)) = false).
+Proof. exact upgrader_cut. Qed.
+Print Assumptions C16_upgrader_cut.
+
+(* ... in particular at every offset k inside the head of any byte string that has one *)
+Theorem C16_upgrader_cut_offsets : forall stext cfg B req h k r, 1 <= B ->
+  head_length req = Some h -> (k < h)%nat -> HsBufio.flat r = firstn k req ->
+  (exists e, u_err (upgrader stext cfg B r) = Some e /\ e <> EFuel)
+  /\ ((forall rj, from_callback cfg rj -> status_of rj <> 101) ->
+      is_101 (u_out (upgrader stext cfg B r)) = false).
+Proof. exact upgrader_cut_offsets. Qed.
+Print Assumptions C16_upgrader_cut_offsets.
+
+(* a request that SUCCEEDS uncut (reader r0), cut at any offset k inside its head (reader r, any
+   chunking, buffer size, tail): exactly the transport's error comes back -- io.EOF or the
+   failure -- and nothing at all is written *)
+Theorem C16_upgrader_cut_of_valid_request : forall stext cfg B0 r0 B r k, 1 <= B0 -> 1 <= B ->
+  u_err (upgrader stext cfg B0 r0) = None -> HsBufio.flat r = firstn k (HsBufio.flat r0) ->
+  exists h, head_length (HsBufio.flat r0) = Some h /\
+    ((k < h)%nat ->
+     u_err (upgrader stext cfg B r) = Some (EIO (r_tail r)) /\ u_out (upgrader stext cfg B r) = []).
+Proof. exact upgrader_cut_of_valid_offsets. Qed.
+Print Assumptions C16_upgrader_cut_of_valid_request.
+
+(* the exact boundary: once the head is complete the outcome (error, handshake, bytes written) is
+   decided, whatever follows and however the stream ends *)
+Theorem C16_upgrader_head_decides : forall stext cfg B1 B2 r1 r2 q, 1 <= B1 -> 1 <= B2 ->
+  head_complete (HsBufio.flat r1) = true -> HsBufio.flat r2 = HsBufio.flat r1 ++ q ->
+  upgrader stext cfg B1 r1 = upgrader stext cfg B2 r2.
+Proof. exact upgrader_head_decides. Qed.
+Print Assumptions C16_upgrader_head_decides.
+
+(* client: the response ends or fails before its head is complete => Dialer.Upgrade returns an
+   error, for every configuration, URL, nonce, buffer size, chunking and tail *)
+Theorem C16_dialer_cut : forall cfg url_host uri nonce B r, 1 <= B ->
+  head_complete (HsBufio.flat r) = false ->
+  exists e, d_err (dialer_upgrade cfg url_host uri nonce B r) = Some e /\ e <> DFuel.
+Proof. exact dialer_cut. Qed.
+Print Assumptions C16_dialer_cut.
+
+Theorem C16_dialer_cut_offsets : forall cfg url_host uri nonce B resp h k r, 1 <= B ->
+  head_length resp = Some h -> (k < h)%nat -> HsBufio.flat r = firstn k resp ->
+  exists e, d_err (dialer_upgrade cfg url_host uri nonce B r) = Some e /\ e <> DFuel.
+Proof. exact dialer_cut_offsets. Qed.
+Print Assumptions C16_dialer_cut_offsets.
+
+(* a response that is ACCEPTED uncut, cut at any offset inside its head: exactly the transport's error *)
+Theorem C16_dialer_cut_of_valid_response : forall cfg url_host uri nonce B0 r0 B r k, 1 <= B0 -> 1 <= B ->
+  d_err (dialer_upgrade cfg url_host uri nonce B0 r0) = None -> HsBufio.flat r = firstn k (HsBufio.flat r0) ->
+  exists h, head_length (HsBufio.flat r0) = Some h /\
+    ((k < h)%nat -> d_err (dialer_upgrade cfg url_host uri nonce B r) = Some (DIO (r_tail r))).
+Proof. exact dialer_cut_of_valid_offsets. Qed.
+Print Assumptions C16_dialer_cut_of_valid_response.
+
+Theorem C16_dialer_head_decides : forall cfg url_host uri nonce B1 B2 r1 r2 q, 1 <= B1 -> 1 <= B2 ->
+  head_complete (HsBufio.flat r1) = true -> HsBufio.flat r2 = HsBufio.flat r1 ++ q ->
+  d_err (dialer_upgrade cfg url_host uri nonce B1 r1) = d_err (dialer_upgrade cfg url_host uri nonce B2 r2)
+  /\ d_hs (dialer_upgrade cfg url_host uri nonce B1 r1) = d_hs (dialer_upgrade cfg url_host uri nonce B2 r2).
+Proof. exact dialer_head_decides. Qed.
+Print Assumptions C16_dialer_head_decides.
+
+(* non-vacuity: the RFC 6455 sample request (214 bytes, all of them head) and sample response (head of
+   159 bytes, one frame behind it).  Uncut both succeed; cut inside the head -- also right behind
+   the LF of the last header line (212 / 157) and between the CR and the LF of the blank line
+   (213 / 158) -- the transport's error comes back and the server writes nothing; and, as a test
+   over this one sample, the same at EVERY offset below the head length, in 5-byte reads with
+   io.EOF and in 1-byte reads with a failing transport, through a 16-byte buffer *)
+Example C16_handshake_cut_nonvacuous :
+  let up k n t := upgrader (fun _ => []) sample_cfg 16 (cut_reader n k sample_request t) in
+  let dcfg := mkDcfg [[99; 104; 97; 116]] [] [] [] (fun _ _ => false) in
+  let nonce := [100;71;104;108;73;72;78;104;98;88;66;115;90;83;66;117;98;50;53;106;90;81;61;61] in
+  let di k n t := dialer_upgrade dcfg [120] [47] nonce 16 (cut_reader n k (c10_sample_resp []) t) in
+  let up_io t x := match u_err x, u_out x, t with
+                   | Some (EIO TEof), [], TEof | Some (EIO TFail), [], TFail => true | _, _, _ => false end in
+  let di_io t x := match d_err x, t with
+                   | Some (DIO TEof), TEof | Some (DIO TFail), TFail => true | _, _ => false end in
+  head_length sample_request = Some 214%nat /\ length sample_request = 214%nat
+  /\ u_err (up 214%nat 1%nat TEof) = None /\ is_101 (u_out (up 214%nat 1%nat TFail)) = true
+  /\ (u_err (up 213%nat 1%nat TEof), u_out (up 213%nat 1%nat TEof)) = (Some (EIO TEof), [])
+  /\ (u_err (up 212%nat 7%nat TFail), u_out (up 212%nat 7%nat TFail)) = (Some (EIO TFail), [])
+  /\ (u_err (up 100%nat 3%nat TEof), u_out (up 100%nat 3%nat TEof)) = (Some (EIO TEof), [])
+  /\ u_err (up 0%nat 1%nat TFail) = Some (EIO TFail)
+  /\ forallb (fun k => up_io TEof (up k 5%nat TEof) && up_io TFail (up k 1%nat TFail)) (seq 0 214) = true
+  /\ head_length (c10_sample_resp []) = Some 159%nat /\ length (c10_sample_resp []) = 163%nat
+  /\ d_err (di 163%nat 1%nat TEof) = None /\ d_err (di 159%nat 4%nat TFail) = None
+  /\ d_err (di 158%nat 1%nat TEof) = Some (DIO TEof) /\ d_err (di 157%nat 4%nat TFail) = Some (DIO TFail)
+  /\ d_err (di 40%nat 1%nat TEof) = Some (DIO TEof) /\ d_err (di 0%nat 1%nat TFail) = Some (DIO TFail)
+  /\ forallb (fun k => di_io TEof (di k 5%nat TEof) && di_io TFail (di k 1%nat TFail)) (seq 0 159) = true.
+Proof. vm_compute. repeat split; reflexivity. Qed.
